@@ -290,15 +290,9 @@ func (m *Model) deleteMode(id string, opts ...resource.WriteOption) error {
 		return ErrDeleteActiveMode
 	}
 
-	msg, err := m.modes.Delete(id, opts...)
-	if err != nil {
-		return err
-	}
-	if msg == nil {
-		return ErrModeNotFound
-	}
-
-	return nil
+	// a missing mode is reported by Delete as a NotFound error, unless resource.WithAllowMissing(true) was given
+	_, err := m.modes.Delete(id, opts...)
+	return err
 }
 
 // UpdateMode will modify one of the modes stored in this device.
